@@ -28,6 +28,9 @@ def variants():
                         sends += [(10 + 2, 0, fc)]          # a third concurrent pool sender
                     name = 'msg/W%d/%s/%s/%s' % (W, fn, sn, 'wfault' if faults else 'nofault')
                     out.append((name, W, notrun, mode, faults, sends))
+                    if W == 2:   # small variant: two senders, same destination + a self-send; affordable at a deeper bound
+                        small = [(1, other if other >= 0 else 0, fc), (1, other if other >= 0 else 0, fc), (10 + wk, other, fc), (10 + wk, -1, fc)]
+                        out.append(('msgS/W%d/%s/%s/%s' % (W, fn, sn, 'wfault' if faults else 'nofault'), W, notrun, mode, faults, small))
         # pool virtual thread as destination
         for faults in (0, 1):
             sends = [(1, W, '0'), (1, W, '0'), (2, W, '0'), (10, W, '0'), (1, 0, '0')]
@@ -52,16 +55,21 @@ def plan(tier, vs):
     jobs = []
     for v in vs:
         name, W, notrun, mode, faults, sends = v
+        kind = name.split('/')[0]
         if tier == 'quick':
-            if W == 2:
+            if kind == 'msgS':
                 jobs.append((name, 1 if faults else 2, 1))
+            elif W == 2:
+                jobs.append((name, 1, 1))
             elif W == 1 and not faults:
                 jobs.append((name, 2, 1))
-            elif W == 3 and not faults and notrun < 0 and name.split('/')[2] in ('0', 'ALL'):
-                jobs.append((name, 1, 1))
+            elif W == 3 and not faults and notrun < 0 and (kind == 'pvt' or name.split('/')[2] in ('0', 'ALL')):
+                jobs.append((name, 1, 0))
         else:
-            if W <= 2:
+            if kind == 'msgS' or W == 1:
                 jobs.append((name, 2 if faults else 3, 2))
+            elif W == 2:
+                jobs.append((name, 2, 1))
             elif W == 3:
                 jobs.append((name, 1 if faults else 2, 1))
             else:
@@ -81,7 +89,7 @@ def run(tier):
         'stateless deviation-bounded DFS over schedules and write() faults; one case = one complete execution of a '
         'multi-sender message scenario on the real pool; non-trivial = any execution other than the default schedule')
     vs, b = _build()
-    e1.run_jobs(rep, b, plan(tier, vs), tier, job_deadline_s=(120 if tier == 'quick' else 900))
+    e1.run_jobs(rep, b, plan(tier, vs), tier, job_deadline_s=(300 if tier == 'quick' else 1500))
     e1.finish(rep, b, tier)
 
 
